@@ -19,6 +19,8 @@ package session
 //	l <key>                        Lookup     -> nil | o:...
 //	s <key>                        (seq only) index of the shard shardFor selects -> s<i>
 //	m <svlan> <cvlan> <machex>     (seq only) MakeTupleKey -> k:<key>
+//	v                              (seq only) re-read the Owner behind the last non-nil pointer returned by Claim/Lookup -> v:<owner>
+//	w                              (seq only) overwrite that Owner through the pointer (must not reach the table) -> w
 //	n                              (seq only) number of stored tuples, and whether each sits in its shard -> n<k> | BADSHARD
 //
 // key = <svlan>.<cvlan>.<12 hex digits>; strings are hex, "-" is the empty string.
@@ -115,7 +117,7 @@ func c17ParseOp(f []string, p int) (c17Op, int) {
 	case 'm':
 		o.raw = f[p+1 : p+4]
 		return o, p + 4
-	case 'n':
+	case 'n', 'v', 'w':
 		return o, p + 1
 	}
 	panic("bad op " + f[p])
@@ -128,8 +130,23 @@ func c17Apply(r *Registry, o c17Op) (out string) {
 		}
 	}()
 	switch o.kind {
+	case 'v':
+		// the Owner behind the pointer most recently returned by Claim/Lookup must still read as it did then
+		return "v:" + c17ShowOwner(c17Last)
+	case 'w':
+		// scribbling over the returned Owner must not reach the table
+		if c17Last != nil {
+			c17Last.SessionID = "scribble"
+			c17Last.Protocol = "x"
+			c17Last = nil
+		}
+		return "w"
 	case 'c':
-		return c17ShowOwner(r.Claim(o.key, o.owner))
+		pr := r.Claim(o.key, o.owner)
+		if pr != nil && c17Track {
+			c17Last = pr
+		}
+		return c17ShowOwner(pr)
 	case 'r':
 		r.Release(o.key, o.owner)
 		return "ok"
@@ -139,7 +156,11 @@ func c17Apply(r *Registry, o c17Op) (out string) {
 		}
 		return "F"
 	case 'l':
-		return c17ShowOwner(r.Lookup(o.key))
+		pr := r.Lookup(o.key)
+		if pr != nil && c17Track {
+			c17Last = pr
+		}
+		return c17ShowOwner(pr)
 	case 's':
 		sh := r.shardFor(o.key)
 		for i := range r.shards {
@@ -175,7 +196,14 @@ func c17Apply(r *Registry, o c17Op) (out string) {
 	return "badop"
 }
 
+// pointer most recently returned by Claim/Lookup in a seq case (value-vs-alias observations v, w)
+var c17Last *Owner
+var c17Track bool // only sequential cases remember pointers (workers of concurrent cases must not share it)
+
 func c17Seq(f []string) string {
+	c17Last = nil
+	c17Track = true
+	defer func() { c17Track = false }()
 	r := NewRegistry()
 	var res []string
 	for p := 1; p < len(f); {
